@@ -8,6 +8,16 @@ FDy(f) == Dy(NFromBytesBE(f.mant), f.exp)
 Show(x) == NToDec(x)
 IntEq(x, neg, absN) == NFromBytesBE(x.abs) = NNorm(absN) /\ (NIsZero(absN) \/ x.neg = neg)
 
+\* |x - y| <= max(x, y) * 2^-52 for two non-negative dyadic values: "within about one unit in the last place"
+MinI(a, b) == IF a < b THEN a ELSE b
+WithinOneUlp(x, y) ==
+  LET m == MinI(x.s, y.s)
+      X == NShl(x.q, x.s - m)
+      Y == NShl(y.q, y.s - m)
+      big == IF NCmp(X, Y) >= 0 THEN X ELSE Y
+      small == IF NCmp(X, Y) >= 0 THEN Y ELSE X
+  IN NCmp(NShl(NSub(big, small), 52), big) <= 0
+
 VerdictA(p, e, s) ==
   IF "panic" \in DOMAIN e THEN V("panic", e.op, e.panic)
   ELSE
@@ -19,6 +29,10 @@ VerdictA(p, e, s) ==
     [] e.op = "ToUnit" ->
          LET x == ToUnitAbs(AbsOf(e.a), e.u + 8) IN
          IF e.r.cls = "fin" /\ DyEq(FDy(e.r), x) /\ (NIsZero(x.q) \/ e.r.neg = e.a.neg) THEN OK
+         \* below Satoshi the code divides by an inexact power of ten (a known finding): that result is the correctly
+         \* rounded one or its neighbour, and is reported under its own clause; anything further away is not
+         ELSE IF e.u < -8 /\ e.r.cls = "fin" /\ (NIsZero(x.q) \/ e.r.neg = e.a.neg) /\ WithinOneUlp(FDy(e.r), x)
+           THEN V("unit-conversion-double-rounded-below-satoshi", [q |-> Show(x.q), s |-> x.s], [q |-> Show(NFromBytesBE(e.r.mant)), s |-> e.r.exp])
          ELSE V("unit-conversion-not-correctly-rounded", [q |-> Show(x.q), s |-> x.s], [q |-> Show(NFromBytesBE(e.r.mant)), s |-> e.r.exp])
     [] e.op = "RoundTrip" ->
          \* NewAmount(a.ToBCH()) = a
@@ -30,7 +44,13 @@ VerdictA(p, e, s) ==
              lab == IF sp = 0 THEN <<>> ELSE Drop(e.text, sp)
              pd == ParseDec(num)
          IN IF lab # UnitLabel(e.u) THEN V("unit-label", UnitLabel(e.u), lab)
-            ELSE IF ~Denotes(pd, e.a.neg, AbsOf(e.a), e.u + 8) THEN V("decimal-text-value", [abs |-> Show(AbsOf(e.a)), k |-> e.u + 8], Cut(num))
+            \* below Satoshi the value a * 10^j (j = -(unit+8)) goes through a float64 (a known finding); a one-ulp error
+            \* of that float can only show in the j printed decimals when a * 10^(2j) >= 2^51 -- smaller amounts must
+            \* still be printed exactly
+            ELSE IF ~Denotes(pd, e.a.neg, AbsOf(e.a), e.u + 8) THEN
+                   V(IF e.u < -8 /\ NCmp(NMul(AbsOf(e.a), NPow10(2 * (0 - (e.u + 8)))), NPow2(51)) >= 0
+                       THEN "decimal-text-value-beyond-float-precision-below-satoshi" ELSE "decimal-text-value",
+                     [abs |-> Show(AbsOf(e.a)), k |-> e.u + 8], Cut(num))
             ELSE OK
     [] e.op = "MulF64" ->
          IF e.f.cls # "fin" THEN OK
